@@ -39,3 +39,16 @@ def oracle(case, reply):
 
 def nontrivial(case, reply):
     return reply.count("Offset") > 4 and "bad-jump," in reply
+
+tie_check = G.tie_check
+MANIFEST = {
+    "text": "Proof: list-level invariants of the CFG model — one node per block plus terminate and bad-jump (special nodes cannot be "
+            "edge sources by construction), every edge leads to a jumpdest-headed block, the block at the source's fall-through "
+            "offset or a special node, no duplicate edges, refinement only removes edges, and with a solver sound for unsat every "
+            "block keeps a successor (some query is satisfied by any interpretation) and fall-through / halting blocks keep "
+            "exactly their mandatory one; building and refining never panic.",
+    "note": "Trusted: Lean kernel; Cfg/Model.lean tied to cfg.rs by equality of node list and edge multiset parsed from the real DOT "
+            "and by checking the query of every removed edge; petgraph's Dot renders one line per node/edge (anything else is "
+            "flagged MALFORMED by the harness); SoundSat assumption on Z3.",
+    "technique": "Lean 4 proof of graph-shape invariants + DOT-level differential correspondence + structural oracle on real renderings",
+}
